@@ -473,39 +473,9 @@ Proof.
 Qed.
 
 (* ---- the selection function ------------------------------------------------------------------ *)
-Lemma prefix_ok_use n t : prefix_ok n t = true -> startswith n t = true ->
-  n = t \/ startswith n (t ++ [47%Z]) = true.
-Proof.
-  unfold prefix_ok. intros H Hs. rewrite Hs in H. simpl in H. apply orb_true_iff in H.
-  destruct H as [H|H]; [left; now apply str_eqb_eq|now right].
-Qed.
-
-Theorem sel_spec_agree a T recursive n :
-  targets_prefix_ok a T -> In n (names a) -> sel T recursive n = spec_sel T recursive n.
-Proof.
-  unfold targets_prefix_ok, targets_prefix_okb, sel, spec_sel. intros H Hn.
-  destruct recursive; simpl; [|now rewrite orb_false_r].
-  rewrite forallb_forall in H.
-  apply eq_true_iff_eq. rewrite !orb_true_iff, !existsb_exists, !mem_In. split.
-  - intros [Hm|(t & Ht & Hs)]; [now left|].
-    specialize (H t Ht). rewrite forallb_forall in H. specialize (H n Hn).
-    destruct (prefix_ok_use n t H Hs) as [->|Hp]; [now left|]. right. now exists t.
-  - intros [Hm|(t & Ht & Hs)]; [now left|]. right. exists t. split; [exact Ht|].
-    now apply startswith_app in Hs.
-Qed.
-
-Theorem member_targets_prefix_ok a T :
-  prefix_free_names a ->
-  (forall t, In t T -> In (remove_trailing_slash t) (names a)
-                       \/ (forall n, In n (names a) -> startswith n (remove_trailing_slash t) = false)) ->
-  targets_prefix_ok a T.
-Proof.
-  unfold prefix_free_names, prefix_free_namesb, targets_prefix_ok, targets_prefix_okb, targets_norm.
-  intros Hpf HT. rewrite forallb_forall in *. intros t' Ht'. apply in_map_iff in Ht'.
-  destruct Ht' as (t & <- & Ht). destruct (HT t Ht) as [Hin|Hno].
-  - now apply Hpf.
-  - apply forallb_forall. intros n Hn. unfold prefix_ok. now rewrite (Hno n Hn).
-Qed.
+(* the filter of _extract IS the specified selection (recursive matching goes along '/') *)
+Theorem sel_spec_agree T recursive n : sel T recursive n = spec_sel T recursive n.
+Proof. unfold sel, spec_sel. destruct recursive; simpl; [reflexivity|now rewrite orb_false_r]. Qed.
 
 Lemma sel_same_norm T T' recursive n : targets_norm T = targets_norm T' -> sel T recursive n = sel T' recursive n.
 Proof. unfold sel. now intros ->. Qed.
@@ -515,7 +485,8 @@ Proof.
   intros H. unfold sel, mem.
   assert (H' : forall x, In x (targets_norm T) <-> In x (targets_norm T')).
   { intros x. unfold targets_norm. rewrite !in_map_iff. split; intros (y & Hy & Hin); exists y; (split; [exact Hy|now apply H]). }
-  rewrite (existsb_same_elements (str_eqb n) _ _ H'), (existsb_same_elements (startswith n) _ _ H'). reflexivity.
+  rewrite (existsb_same_elements (str_eqb n) _ _ H'),
+    (existsb_same_elements (fun t => startswith n (t ++ [47%Z])) _ _ H'). reflexivity.
 Qed.
 
 Lemma filter_all_true {A} (l : list (str * A)) : filter (fun x => all_true (fst x)) l = l.
@@ -526,33 +497,23 @@ Proof. induction l as [|x l IH]; simpl; [reflexivity|]. now rewrite IH. Qed.
 (* selective extraction = restriction of full extraction (whole result, directories included),
    and full extraction = every non-directory member with its own bytes *)
 Theorem extract_restrict_full nm m a T recursive :
-  wf_archive a -> ids_consistent nm a -> targets_prefix_ok a T ->
+  wf_archive a -> ids_consistent nm a ->
   impl_extract nm m a T recursive = spec_run m a (spec_sel T recursive)
   /\ impl_extract_all nm m a = spec_run m a all_true.
 Proof.
-  intros _ Hc HT. unfold impl_extract, impl_extract_all. rewrite !run_spec by exact Hc. split; [|reflexivity].
-  apply spec_run_ext. intros n Hn. now apply (sel_spec_agree a).
+  intros _ Hc. unfold impl_extract, impl_extract_all. rewrite !run_spec by exact Hc. split; [|reflexivity].
+  apply spec_run_ext. intros n Hn. apply sel_spec_agree.
 Qed.
 
 Theorem extract_restrict nm m a T recursive :
-  wf_archive a -> ids_consistent nm a -> targets_prefix_ok a T ->
+  wf_archive a -> ids_consistent nm a ->
   delivered (impl_extract nm m a T recursive)
   = filter (fun x => spec_sel T recursive (fst x)) (delivered (impl_extract_all nm m a))
   /\ delivered (impl_extract_all nm m a) = all_members a.
 Proof.
-  intros Hw Hc HT. destruct (extract_restrict_full nm m a T recursive Hw Hc HT) as [H1 H2].
+  intros Hw Hc. destruct (extract_restrict_full nm m a T recursive Hw Hc) as [H1 H2].
   rewrite H1, H2. simpl. rewrite (filter_all_true (all_members a)). split; reflexivity.
 Qed.
-
-(* the form of the property for member-name targets *)
-Corollary extract_restrict_members nm m a T recursive :
-  wf_archive a -> prefix_free_names a -> ids_consistent nm a ->
-  (forall t, In t T -> In (remove_trailing_slash t) (names a)
-                       \/ (forall n, In n (names a) -> startswith n (remove_trailing_slash t) = false)) ->
-  delivered (impl_extract nm m a T recursive)
-  = filter (fun x => spec_sel T recursive (fst x)) (delivered (impl_extract_all nm m a))
-  /\ delivered (impl_extract_all nm m a) = all_members a.
-Proof. intros Hw Hpf Hc HT. apply extract_restrict; auto. now apply member_targets_prefix_ok. Qed.
 
 (* what holds with no hypothesis at all (in particular in the defective multi-folder layout) *)
 Theorem extract_restrict_relative nm m a T recursive :
@@ -562,7 +523,8 @@ Proof. unfold impl_extract, impl_extract_all, run. simpl. apply worker_restrict.
 
 Theorem absent_ignored nm m a t T recursive :
   ~ In (remove_trailing_slash t) (names a) ->
-  (recursive = true -> forall n, In n (names a) -> startswith n (remove_trailing_slash t) = false) ->
+  (* with recursive: nor is it a directory above a member *)
+  (recursive = true -> forall n, In n (names a) -> startswith n (remove_trailing_slash t ++ [47%Z]) = false) ->
   impl_extract nm m a (t :: T) recursive = impl_extract nm m a T recursive.
 Proof.
   intros Hab Hrec. unfold impl_extract. apply run_ext. intros n Hn. unfold sel. simpl.
@@ -651,6 +613,7 @@ Definition witness_healthy : archive :=
    mkEntry wD1 (KData 1 [3; 3; 3; 3]%Z);
    mkEntry wD2 (KData 1 [4; 4; 4; 4; 4; 4]%Z); mkEntry wD3 (KData 1 [5; 5; 5]%Z)].
 
+(* documented regression example (stored = false is the numbering py7zr had before the repair) *)
 Theorem extract_restrict_multifolder_refuted :
   exists a T, wf_archive a /\ prefix_free_names a /\ (forall t, In t T -> In t (names a)) /\
     ~ ids_consistent false a /\
@@ -676,27 +639,30 @@ Theorem multifolder_defect_behaviour :
      (wD3, [5; 5; 5]%Z)].
 Proof. repeat split. Qed.
 
-(* the hypotheses of extract_restrict are met by a two-folder archive with a directory entry *)
+(* the hypotheses of extract_restrict are met (also with the former numbering) by a two-folder
+   archive with a directory entry outside the folders' runs *)
 Theorem healthy_witness_hypotheses :
   wf_archive witness_healthy /\ prefix_free_names witness_healthy /\ ids_consistent false witness_healthy /\
-  targets_prefix_ok witness_healthy [wD3; wE ++ [47%Z]] /\ numfolders witness_healthy = 2.
+  numfolders witness_healthy = 2.
 Proof. repeat split. Qed.
 
-(* without the side condition on absent targets: an absent name that is a string prefix of a
-   member name is not ignored by recursive extraction (`startswith`) *)
+(* an absent name that is a string prefix, but not a path prefix, of a member name is ignored by
+   recursive extraction too (it was not while _extract matched with `startswith(target)`) *)
 Definition wSubX : str := [115; 117; 98; 47; 120]%Z.   (* "sub/x" *)
 Definition wSu : str := [115; 117]%Z.                   (* "su" *)
-Theorem absent_ignored_refuted :
-  exists a t T, wf_archive a /\ prefix_free_names a /\ ~ In (remove_trailing_slash t) (names a) /\
-    (forall n, In n (names a) -> startswith n (remove_trailing_slash t ++ [47%Z]) = false) /\
-    delivered (impl_extract false false a (t :: T) true) <> delivered (impl_extract false false a T true).
+Theorem absent_string_prefix_ignored :
+  let a := [mkEntry wSubX (KData 0 [7%Z])] in
+  wf_archive a /\ prefix_free_names a /\ ~ In (remove_trailing_slash wSu) (names a) /\
+  startswith wSubX wSu = true /\
+  (forall nm m T, impl_extract nm m a (wSu :: T) true = impl_extract nm m a T true) /\
+  delivered (impl_extract true false a [wSu] true) = [].
 Proof.
-  exists [mkEntry wSubX (KData 0 [7%Z])], wSu, [].
-  split; [reflexivity|]. split; [reflexivity|]. split.
+  split; [reflexivity|]. split; [reflexivity|].
+  assert (Hab : ~ In (remove_trailing_slash wSu) (names [mkEntry wSubX (KData 0 [7%Z])])).
   { vm_compute. intros [H|[]]. discriminate. }
-  split.
-  { intros n [<-|[]]. reflexivity. }
-  vm_compute. discriminate.
+  split; [exact Hab|]. split; [reflexivity|]. split; [|reflexivity].
+  intros nm m T. apply absent_ignored; [exact Hab|].
+  intros _ n [<-|[]]. reflexivity.
 Qed.
 
 (* single-folder archives (any number of members, any interleaving of empty entries) always
@@ -722,7 +688,7 @@ Proof. repeat split. Qed.
 
 Theorem absent_ignored_example :
   ~ In (remove_trailing_slash [113%Z]) (names witness_single) /\
-  (forall n, In n (names witness_single) -> startswith n (remove_trailing_slash [113%Z]) = false) /\
+  (forall n, In n (names witness_single) -> startswith n (remove_trailing_slash [113%Z] ++ [47%Z]) = false) /\
   impl_extract false true witness_single [[113%Z]; wB] true = impl_extract false true witness_single [wB] true.
 Proof.
   split; [vm_compute; intuition discriminate|]. split; [|reflexivity].
@@ -738,8 +704,8 @@ Proof.
 Qed.
 
 Theorem extract_restrict_stored m a T recursive :
-  wf_archive a -> targets_prefix_ok a T ->
+  wf_archive a ->
   delivered (impl_extract true m a T recursive)
   = filter (fun x => spec_sel T recursive (fst x)) (delivered (impl_extract_all true m a))
   /\ delivered (impl_extract_all true m a) = all_members a.
-Proof. intros Hw HT. apply extract_restrict; auto. apply ids_consistent_stored. Qed.
+Proof. intros Hw. apply extract_restrict; auto. apply ids_consistent_stored. Qed.
